@@ -168,7 +168,11 @@ def gen_cases(run, tier):
                                                   spec_syncs=[s0], kind='pairs'))
     # (3) path spellings (RemotePathDesc)
     spell = ['f', 'h:f', 'u@h:f', 'u@h:', '@h:f', 'u@:f', ':f', 'C:\\x', 'C:', 'C:/x', 'ab:\\x', 'u@h:a:b', 'a@b@c:d',
-             'h:/abs/path/', './rel/', 'u@h:~/x', '', 'x@y', 'host:path with space', 'h:f:', '::', 'a:@b']
+             'h:/abs/path/', './rel/', 'u@h:~/x', '', 'x@y', 'host:path with space', 'h:f:', '::', 'a:@b',
+             # white space is part of a path / host / user as typed (a folder can be called 'data '): nothing is trimmed
+             'data ', ' data', ' h:f', 'h:f ', 'h: f', 'u @h:f', '\tx', 'x\t', ' ', 'a b:c d', 'h :f',
+             # drive-letter exception: one letter, then ':' followed by nothing or a backslash - not a forward slash
+             'h:/abs', 'c:/x/y', 'c:\\x', 'é:\\x', 'ab:', 'c:x']
     for s in spell:
         for d in rng.sample(spell, 3) + ['d']:
             cases.append(Case(src=s, dest=d, kind='spelling', deploy=rng.choice([None, 'Ok'])))
@@ -245,6 +249,19 @@ def oracle(case, impl_line):
         want_dep = case.deploy or 'Prompt'
         if spec['deploy'] != want_dep:
             return 'deploy is %s, expected %s' % (spec['deploy'], want_dep)
+    if case.kind == 'spelling' and len(syncs) == 1:
+        # "a sync described in a spec file behaves exactly like the same sync given as SRC DEST": an argument without a colon is a
+        # local path and is taken exactly as typed (in a spec file `src: "data "` names the folder 'data '); with a colon the text
+        # after the first colon is the path, again as typed
+        for key, arg in (('src', case.src), ('dest', case.dest)):
+            if arg is None:
+                continue
+            got = bytes.fromhex(syncs[0][key]).decode('utf-8', 'replace') if syncs[0][key] != '-' else ''
+            if ':' not in arg and got != arg:
+                return 'the %s argument %r (no host part) was resolved to the path %r' % (key, arg, got)
+            if ':' in arg and not (len(arg.split(':', 1)[0]) == 1 and (arg.split(':', 1)[1] == '' or arg.split(':', 1)[1].startswith('\\'))) \
+                    and got != arg.split(':', 1)[1]:
+                return 'the %s argument %r was resolved to the path %r, not to the text after the first colon' % (key, arg, got)
     return None
 
 
